@@ -248,3 +248,67 @@ Arguments anc1 {V F S}.
 Arguments ancestral {V F S}.
 Arguments joint {V F S}.
 Arguments jointb {V F S}.
+
+(* ---- shapes ----------------------------------------------------------------------------------------
+       event_shape = tfp_dist.event_shape;  batch_shape = tfp_dist.batch_shape
+       value_shape = jnp.asarray(dist.at.value).shape
+       sample_index = len(value_shape) - len(batch_shape) - len(event_shape)
+       sample_shape = value_shape[:sample_index]
+       value = tfp_dist.sample(sample_shape, seed)
+   where tfp_dist is the distribution object built (init_dist) from the parameter values read AFTER the
+   inputs were brought up to date.  [tfp_sample] is the sampler of Section Sim decomposed accordingly:
+   bshape f ps = batch shape of the distribution f built on the parameter values ps, eshape f = its event
+   shape, draw f seed ps sh = tfp's sample(sh, seed). *)
+Definition sample_shape (vs b e : list nat) : list nat := firstn (length vs - length b - length e) vs.
+
+Section Shapes.
+Variables (V F S : Type).
+Variable shape_of : V -> list nat.
+Variable bshape : F -> list V -> list nat.
+Variable eshape : F -> list nat.
+Variable draw : F -> S -> list V -> list nat -> V.
+
+Definition tfp_sample (f : F) (sd : S) (ps : list V) (cur : V) : V :=
+  draw f sd ps (sample_shape (shape_of cur) (bshape f ps) (eshape f)).
+
+(* variant "hoisted" (seeded change C17-3): the sample shapes of all selected distributions are computed in
+   a first loop, from the values the nodes show at entry (no refresh), the drawing loop refreshes the inputs
+   and samples from the fresh distribution with the pre-computed shape *)
+Section Hoisted.
+Variables (interp : F -> list V -> V) (dflt : V).
+Variable I : impl V F.
+Variable rd : graph F -> mstate V -> list V.
+
+Definition entry_sample_shape (g : graph F) (s : mstate V) (d : dinfo F) : list nat :=
+  let tb := rd g s in
+  sample_shape (shape_of (getv dflt tb (d_at d))) (bshape (d_samp d) (map (getv dflt tb) (d_params d)))
+               (eshape (d_samp d)).
+
+Fixpoint sim_loop_hoisted (g : graph F) (rs : rstate V) (ds : list (dinfo F * S * list nat))
+  : rstate V * bool :=
+  match ds with
+  | [] => (rs, false)
+  | (d, sd, sh) :: r =>
+      let rs1 := refreshed I RefreshInputs g rs d in
+      let tb := rd g (cur rs1) in
+      let out := step_with I g rs1 (Assign (d_tgt d) (draw (d_samp d) sd (map (getv dflt tb) (d_params d)) sh)) in
+      if err out then (st' out, true) else sim_loop_hoisted g (st' out) r
+  end.
+
+Definition simulate_hoisted (g : graph F) (rs : rstate V) (order : list (dinfo F)) (skip : list nat)
+           (seeds : list S) : rstate V * bool :=
+  let act := filter (selected skip) order in
+  sim_loop_hoisted g rs (combine (combine act seeds) (map (entry_sample_shape g (cur rs)) act)).
+End Hoisted.
+End Shapes.
+
+Arguments tfp_sample {V F S}.
+Arguments entry_sample_shape {V F}.
+Arguments sim_loop_hoisted {V F S}.
+Arguments simulate_hoisted {V F S}.
+
+
+(* Dist.update / the value a Dist node caches:  log_prob = init_dist().log_prob(at.value), summed up when
+   per_obs is False.  Shape of the cached value for a current value of shape vs (ending in batch ++ event): *)
+Definition logprob_shape (per_obs : bool) (vs e : list nat) : list nat :=
+  if per_obs then firstn (length vs - length e) vs else [].
